@@ -367,6 +367,62 @@ type CaseSpec struct {
 	MaxWorkers int   `json:"maxworkers"`
 	Badger     bool  `json:"badger"` // one more variant ingested into a real badger store
 	CLI        bool  `json:"cli"`    // commit / re-commit through the real command line
+	// Huge > 0: not a drawn table but one of more than Huge full blocks (sequential keys handed over in descending
+	// order), ingested twice (one worker in memory; many workers with spilled runs); events projected by compressPlaced
+	Huge int `json:"huge,omitempty"`
+}
+
+// compressPlaced projects the event of a huge table further (TLC takes minutes over sequences of 10^5 entries):
+// a run of consecutive stored rows each of which IS the input row of that key rank - the right row in the right
+// place - becomes ONE abstract row (with one abstract input row); every other input row and every other stored row
+// stays individual.  A stored row that repeats a row of a run lands on the run's abstract row (a key twice: rejected),
+// an input row that never comes out stays an input key without a stored row (rejected), the recorded row count is
+// reduced by what the runs swallowed.
+func compressPlaced(e *Event) {
+	n := len(e.InKeys)
+	if !e.Unique || e.Err != "" || n == 0 {
+		return
+	}
+	byRank := make([]int, n)
+	for i, k := range e.InKeys {
+		if k < 0 || k >= n {
+			return
+		}
+		byRank[k] = i
+	}
+	placed := func(p int) bool { return p >= 0 && p < len(e.Out) && p < n && e.Out[p] == byRank[p] }
+	newID := make([]int, n) // input row -> abstract input row
+	na := 0
+	for p := 0; p < n; p++ {
+		if !(placed(p) && placed(p-1)) {
+			na++
+		}
+		newID[byRank[p]] = na - 1
+	}
+	var out []int
+	for p, o := range e.Out {
+		switch {
+		case placed(p) && placed(p-1):
+		case o < 0 || o >= n:
+			out = append(out, -1)
+		default:
+			out = append(out, newID[o])
+		}
+	}
+	e.Rows -= len(e.Out) - len(out)
+	e.Out = out
+	e.InKeys, e.InIDs = make([]int, na), make([]int, na)
+	for a := 0; a < na; a++ {
+		e.InKeys[a], e.InIDs[a] = a, a
+	}
+}
+
+func hugeTable(blocks int) *Table {
+	t := &Table{Cols: []string{"v", "id"}, PK: []string{"id"}}
+	for j := blocks*255 + 76; j >= 0; j-- {
+		t.Rows = append(t.Rows, []string{fmt.Sprintf("v%d", j%7), fmt.Sprintf("h%07d", j)})
+	}
+	return t
 }
 
 const resetLine = `{"op":"reset","cfg":{},"inkeys":[],"inids":[],"out":[],"rows":0,"cid":"","sum":"","err":"","oversize":false,"unique":true}`
@@ -374,6 +430,25 @@ const resetLine = `{"op":"reset","cfg":{},"inkeys":[],"inids":[],"out":[],"rows"
 // RunCase generates one table, ingests it under several configurations with the real
 // code and returns the trace events and table observations.
 func RunCase(cs CaseSpec) (events []interface{}, obs []interface{}) {
+	if cs.Huge > 0 {
+		events = append(events, json.RawMessage(resetLine))
+		t := hugeTable(cs.Huge)
+		db := tbl.NewSafeStore()
+		for v, cfg := range []Cfg{{Seed: cs.Seed, Variant: 0, Kind: "huge", Workers: 1},
+			{Seed: cs.Seed, Variant: 1, Kind: "huge", Workers: cs.MaxWorkers, RunSize: totalBytes(t.Rows)/7 + 1}} {
+			ev, _ := IngestVariant(t, t.Rows, cfg, 0, db)
+			if ev == nil {
+				continue
+			}
+			compressPlaced(ev)
+			if v == 0 {
+				c := cs
+				ev.Cfg.Case = &c
+			}
+			events = append(events, ev)
+		}
+		return
+	}
 	t, kind, rng := GenCase(cs.Seed, cs.Idx)
 	events = append(events, json.RawMessage(resetLine))
 	db := tbl.NewSafeStore()
@@ -479,6 +554,9 @@ func RecCase(i int, raw []byte) child.Result {
 	events, obs := RunCase(cs)
 	child.EmitBatch("ingest", events)
 	child.EmitBatch("tableobs", obs)
+	if cs.Huge > 0 {
+		return child.Pass("huge")
+	}
 	_, kind, _ := GenCase(cs.Seed, cs.Idx)
 	return child.Pass(kind)
 }
